@@ -6,6 +6,7 @@ import (
 	"fmt"
 	"os"
 	"runtime/metrics"
+	"syscall"
 	"time"
 
 	"free5gclib/aper"
@@ -103,7 +104,26 @@ func multiMutate(msg []byte, r *kernel.Rand, corpus [][]byte) ([]byte, string) {
 	}
 }
 
+// The time bound is judged on CPU time, so that a machine busy with other work cannot make an
+// honest decoder look slow: the process CPU clock is sampled every 256 calls, and a call that took
+// longer than the limit by the wall clock is reported only if the process also burned that much CPU
+// since the last sample (which over-estimates the call by at most 255 ordinary decodes).
+var (
+	cpuMark  time.Duration
+	cpuCalls int
+)
+
+func processCPU() time.Duration {
+	var ru syscall.Rusage
+	syscall.Getrusage(syscall.RUSAGE_SELF, &ru)
+	return time.Duration(ru.Utime.Nano() + ru.Stime.Nano())
+}
+
 func decodeOne(hi int, in []byte, desc string) (panicked bool) {
+	if cpuCalls%256 == 0 {
+		cpuMark = processCPU()
+	}
+	cpuCalls++
 	a0 := allocated()
 	t0 := time.Now()
 	defer func() {
@@ -111,7 +131,7 @@ func decodeOne(hi int, in []byte, desc string) (panicked bool) {
 			panicked = true
 			viol(hi, "dec.panic", "ngap.Decoder", fmt.Sprintf("panic on %s: %v", desc, p), hmap{"input": hex.EncodeToString(in), "mutation": desc})
 		}
-		if d := time.Since(t0); d > timeLimit {
+		if d := time.Since(t0); d > timeLimit && processCPU()-cpuMark > timeLimit {
 			viol(hi, "dec.slow", "ngap.Decoder", fmt.Sprintf("%v on %s (%d octets)", d, desc, len(in)), hmap{"input": hex.EncodeToString(in), "mutation": desc})
 		}
 		if a := allocated() - a0; a > allocLimit {
